@@ -20,6 +20,14 @@ CHECKS = {
         "Trusted: the 40-line full-copy reference; CPython; value-renaming symmetry (the code never inspects values). Not covered: histories longer than the bound ('longer random ones').",
         "5/C09",
     ),
+    "C14": (
+        "exploration", "enum",
+        "exhaustive enumeration of all texts over a 3-4 symbol alphabet (incl. newline) x all offsets x all spans against integer arithmetic on the text",
+        "Every text up to the length bound, every offset 0..len and every span is evaluated through Position/Span/Pair and compared with line/column computed by counting newlines; injectivity of offset->line/col is checked per text. "
+        "The domain is finite and fully enumerated, which is the exhaustive half of the property's quantifier.",
+        "Trusted: str.count/rfind arithmetic oracle. Not covered: texts longer than the bound, the 'sampled long and non-ASCII texts' clause, line breaks other than \\n.",
+        "5/C14",
+    ),
 }
 
 NOT_BUILT_REASON = "check not built yet in this session (planned, see DESIGN.md section 5)"
